@@ -974,6 +974,11 @@ class Scripts:
                 self.emit('fsk_ook_set_packet_format 0x80 255')
             else:
                 self.emit('fsk_ook_set_packet_format 0 %d' % fixed_len)
+            if r.random() < 0.5:
+                # a reconfiguration that fails (every transfer of the call): the chip keeps its CRC
+                # setting, and so must the handle - the packets below are judged by the old setting
+                c = r.choice(codes)
+                self.emit('fsk_ook_set_crc %d !0=%d !1=%d' % (0x18 if crc == 0x08 else 0x08, c, c))
             if r.random() < 0.7:
                 # reception: faulted packet, then fault-free packets
                 self.emit('set_opmod 5 %d' % mod)
